@@ -471,6 +471,7 @@ class Grid:
 
         metric_vars = None
         array_dims = set(array.dims)
+        axes = _maybe_promote_str_to_list(axes)
 
         # Will raise a Value Error if array doesn't have a dimension corresponding to metric axes specified
         # See _get_dims_from_axis
